@@ -259,6 +259,14 @@ class ClfPeer:
         self.d = len(X[0]) if len(X) else 1
         self.Xtr = [list(r) for r in spec.get("init_X", [])]
         self.ytr = list(spec.get("init_y", []))
+        self.ring = None
+        if spec.get("ring") and self.kind != "stub":
+            # a preallocated sliding training window that the caller overwrites in place (same array objects
+            # for the whole stream)
+            m = int(spec["ring"])
+            self.ring = [np.zeros((m, self.d)), np.full(m, np.nan), 0]
+            for r, l in zip(self.Xtr, self.ytr):
+                self._ring_put(r, l)
         if self.kind == "stub":
             self.clf = stub_class()(classes=self.classes)
         else:
@@ -268,7 +276,15 @@ class ClfPeer:
             self._fit()
         self.retrain_at = set(spec.get("retrain_at", []))
 
+    def _ring_put(self, row, label):
+        Xw, yw, ptr = self.ring
+        Xw[ptr] = np.asarray(row, dtype=float)[: self.d]
+        yw[ptr] = label
+        self.ring[2] = (ptr + 1) % len(yw)
+
     def train_set(self):
+        if self.ring is not None:
+            return self.ring[0], self.ring[1]
         if len(self.Xtr):
             return np.array(self.Xtr, dtype=float), np.array(self.ytr, dtype=float)
         return np.zeros((1, self.d)), np.array([np.nan])
@@ -282,7 +298,9 @@ class ClfPeer:
         for r, l in zip(rows, labels):
             self.Xtr.append(list(r))
             self.ytr.append(l)
-        if pos in self.retrain_at:
+            if self.ring is not None:
+                self._ring_put(r, l)
+        if pos is not None and pos in self.retrain_at:
             self._fit()
             ctx.fault("clf_retrain")
 
@@ -685,6 +703,9 @@ class C03Check(StreamCheckBase):
                 if g.chance(0.4) or p.get("metric"):
                     sc["clf"]["pass_Xy"] = True
                     sc["clf"]["fit_clf"] = g.chance(0.5)
+                    if g.chance(0.5):
+                        sc["clf"]["ring"] = g.pick([2, 4, 8])
+                        sc["clf"]["fit_clf"] = True
                 for key in ("classes",):
                     if key in p:
                         p[key] = [0, 1]
@@ -850,10 +871,18 @@ class C03Check(StreamCheckBase):
             if with_injections:
                 snap_u1 = snapshot(drv.obj)
                 self._upd_written.update(x for x in diff_keys(snap_u0, {k_: v for k_, v in snap_u1.items() if k_ in snap_u0}) if not x.endswith("(presence)"))
+        pending = None  # labels acquired in the previous chunk arrive in two deliveries around the next "pre" slot
         for k, c in enumerate(sc["chunks"]):
             rows = drv.rows(pos, pos + c)
+            if pending is not None:
+                h = (len(pending[0]) + 1) // 2
+                drv.clf_peer.learn(pending[0][:h], pending[1][:h], None, ctx)
             for slot in ("pre", "mid"):
                 if slot == "mid":
+                    if pending is not None:
+                        h = (len(pending[0]) + 1) // 2
+                        drv.clf_peer.learn(pending[0][h:], pending[1][h:], pending[2], ctx)
+                        pending = None
                     if sc.get("unseeded"):
                         np.random.random_sample()  # the other user of the global generator
                     # the genuine query of this chunk
@@ -888,7 +917,7 @@ class C03Check(StreamCheckBase):
                 self._upd_written.update(x for x in diff_keys(snap_u0, {k_: v for k_, v in snap_u1.items() if k_ in snap_u0}) if not x.endswith("(presence)"))
             if not drv.is_manager and drv.clf_peer.kind == "pwc":
                 ql = list(np.asarray(q, dtype=int).tolist())
-                drv.clf_peer.learn([rows[i] for i in ql], [drv.y[pos + i] for i in ql], pos + c, ctx)
+                pending = ([rows[i] for i in ql], [drv.y[pos + i] for i in ql], pos + c)
             if with_injections and last_inj_pos > -1 and pos > last_inj_pos and len(q):
                 ctx.probe("granted_after_last_injection")
             pos += c
